@@ -120,6 +120,18 @@ def roundtrip_cases(ctx):
                         ("cat_labels", (100, 5000, 200000)), ("string_values", (100, 5000, 200000))):
         for chars in (sizes if not ctx.quick() else sizes[-2:]):
             cases.append({"fn": "nonascii_text", "path": path, "chars": chars, "stream": "main"})
+    # zero-row chunks / empty batches / empty frames through every write path: written-and-equal or a Python exception, never a signal
+    for scheme in ("simple", "hive", "drill"):
+        for part in ((False, True) if scheme != "simple" else (False,)):
+            ops = [{"op": "offsets", "offsets": [0, 3, 3]}, {"op": "offsets", "offsets": [0, 0, 3]}, {"op": "offsets", "offsets": [0, 3, 3, 3, 6]},
+                   {"op": "empty_frame"}, {"op": "append_empty"}, {"op": "append_offsets", "offsets": [0, 2, 2]},
+                   {"op": "write_row_groups", "cuts": [0, 2, 2, 6]}, {"op": "write_row_groups", "cuts": [0, 0, 6]},
+                   {"op": "write_row_groups", "cuts": [0, 6, 6]}]
+            if not ctx.quick():
+                ops += [{"op": "offsets", "offsets": [0, 6]}, {"op": "offsets", "offsets": [0, 1, 1, 1]}, {"op": "write_row_groups", "cuts": [0, 0, 0]},
+                        {"op": "append_offsets", "offsets": [0, 0]}]
+            for o in ops:
+                cases.append(dict({"fn": "empty_chunks", "n": 6, "scheme": scheme, "partition_on": part, "stream": "main"}, **o))
     # pinned defect (open finding, .pyx): a column name whose UTF-8 form alone exceeds the serialiser's fixed estimate
     cases.append({"fn": "nonascii_text", "path": "column_name", "chars": 100000, "stream": "confirm"})
     cases.append({"fn": "thrift_numpy_int", "stream": "confirm"})
@@ -154,7 +166,7 @@ def roundtrip_judge(ctx, cases, real):
             ctx.count("round trips not run (worker crashed too often)", 1)
             continue
         short = {"stream": "roundtrip", "fn": c["fn"], "spec": c.get("spec"), "opts": c.get("opts"), "n": c.get("n")}
-        if c["fn"] in ("mt_read", "foreign_chunk", "nonascii_text"):
+        if c["fn"] in ("mt_read", "foreign_chunk", "nonascii_text", "empty_chunks"):
             short = dict({k: v for k, v in c.items() if k != "stream"}, stream="roundtrip")
         ctx.case(short, trivial=c["fn"] == "rt" and c["spec"]["n"] == 0)
         ctx.count("round-trip stream outcome", r[1] if r[0] in ("ok", "exc") else r[0])
@@ -165,6 +177,10 @@ def roundtrip_judge(ctx, cases, real):
             kinds = sorted({col["kind"] for col in c["spec"]["cols"]}) if c["fn"] == "rt" else []
             cls = {"component": "roundtrip" if c["fn"] == "rt" else c["fn"], "stream": c["stream"], "kind": r[0],
                    "dpv": (c.get("opts") or c).get("dpv"), "where": _where(r[2] if len(r) > 2 else "")}
+            if c["fn"] == "empty_chunks":
+                cls.update({"scheme": c["scheme"], "op": c["op"], "partition_on": bool(c.get("partition_on"))})
+            if c["fn"] == "thrift_numpy_int":
+                cls["value_kind"] = "numpy-scalar"       # WHAT reached the compiled thrift setter unchecked (the open finding names it)
             if c["fn"] == "nonascii_text":
                 cls["path"] = c["path"]            # WHICH API path delivered the non-ASCII text (the open finding: caller-given custom_metadata str)
             if c["fn"] == "foreign_chunk":
